@@ -13,6 +13,7 @@ import (
 	"runtime"
 	"strings"
 	"sync"
+	"unicode"
 
 	regexp2 "github.com/dlclark/regexp2/v2"
 	"github.com/dlclark/regexp2/v2/syntax"
@@ -126,6 +127,17 @@ func (g *Gen) classExpr(depth int, ic bool, dia string) ClassExpr {
 				ch = []int{0x130, 0x131, 0x17F, 0x212A, 0x3C2, 0x1E9E, 0xDF, 0x1C5, 0x3A3, 0x10400}[g.pick(10)]
 			}
 			c.Rs = append(c.Rs, [2]int{ch, ch})
+		case k < 6 && g.chance(0.25): // a narrow range around a cased rune of any script (the range lower-casing path)
+			r := 0x41
+			for tries := 0; tries < 200; tries++ {
+				c := g.pick(0x1FFFF)
+				if unicode.SimpleFold(rune(c)) != rune(c) {
+					r = c
+					break
+				}
+			}
+			lo := r - g.pick(2)
+			c.Rs = append(c.Rs, [2]int{lo, lo + 1 + g.pick(3)})
 		case k < 6: // ranges
 			var lo, hi int
 			if g.chance(0.5) {
